@@ -1,0 +1,87 @@
+//! Verification hooks (compiled only with `--cfg flea1lt_sentinel_rust_verif`).
+//!
+//! Thin wrappers that expose crate-private items to an external test harness.
+//! Nothing here changes the behaviour of the library.
+
+pub use crate::utils::time::verif_clock as clock;
+
+/// Statistics primitives: the bucket ring and read-only sliding windows over it.
+pub mod stat {
+    use crate::base::{MetricEvent, ReadStat};
+    use crate::stat::{BucketLeapArray, SlidingWindowMetric};
+    use std::sync::Arc;
+
+    pub struct Ring(pub(crate) Arc<BucketLeapArray>);
+    pub struct Window(pub(crate) Arc<SlidingWindowMetric>);
+
+    impl Ring {
+        pub fn new(sample_count: u32, interval_ms: u32) -> Option<Ring> {
+            BucketLeapArray::new(sample_count, interval_ms)
+                .ok()
+                .map(|a| Ring(Arc::new(a)))
+        }
+        /// `true` when the write was accepted.
+        pub fn add(&self, now: u64, event: MetricEvent, count: u64) -> bool {
+            self.0.add_count_with_time(now, event, count).is_ok()
+        }
+        pub fn conc(&self, now: u64, concurrency: u32) -> bool {
+            self.0.update_concurrency_with_time(now, concurrency).is_ok()
+        }
+        pub fn count(&self, now: u64, event: MetricEvent) -> u64 {
+            self.0.count_with_time(now, event)
+        }
+        /// `min_rt` over the currently valid buckets (reads the virtual clock).
+        pub fn min_rt(&self) -> u64 {
+            self.0.min_rt()
+        }
+        pub fn window(&self, sample_count: u32, interval_ms: u32) -> Option<Window> {
+            SlidingWindowMetric::new(sample_count, interval_ms, self.0.clone())
+                .ok()
+                .map(|w| Window(Arc::new(w)))
+        }
+        /// (start stamp, pass, block, complete, error, rt, min_rt) of every slot, in slot order.
+        pub fn dump(&self) -> Vec<(u64, [u64; 5], u64)> {
+            self.0
+                .array
+                .iter()
+                .map(|b| {
+                    let v = b.value();
+                    (
+                        b.start_stamp(),
+                        [
+                            v.get(MetricEvent::Pass),
+                            v.get(MetricEvent::Block),
+                            v.get(MetricEvent::Complete),
+                            v.get(MetricEvent::Error),
+                            v.get(MetricEvent::Rt),
+                        ],
+                        v.min_rt(),
+                    )
+                })
+                .collect()
+        }
+    }
+
+    impl Window {
+        pub fn sum(&self, now: u64, event: MetricEvent) -> u64 {
+            self.0.sum_with_time(now, event)
+        }
+        pub fn qps(&self, now: u64, event: MetricEvent) -> f64 {
+            self.0.qps_with_time(now, event)
+        }
+        pub fn max_concurrency(&self) -> u32 {
+            self.0.max_concurrency()
+        }
+        pub fn max_of_single_bucket(&self, event: MetricEvent) -> u64 {
+            self.0.max_of_single_bucket(event)
+        }
+        /// the `ReadStat` view (reads the virtual clock)
+        pub fn read_stat(&self) -> Arc<dyn ReadStat> {
+            self.0.clone()
+        }
+    }
+
+    pub fn check_reuse(sc: u32, iv: u32, psc: u32, piv: u32) -> bool {
+        crate::base::check_validity_for_reuse_statistic(sc, iv, psc, piv).is_ok()
+    }
+}
